@@ -352,7 +352,7 @@ def rand_node(r: random.Random, depth: int):
     if c < 0.965 and depth == 0:
         return mk('macrop', r.randrange(10 ** 6), vs=[rand_val(r, allow_s=False) for _ in range(r.randrange(1, 4))])
     if c < 0.98:
-        name = ''.join(r.choice('abkz09') for _ in range(r.randrange(1, 4))).encode()
+        name = ''.join(r.choice('abkzKZ09') for _ in range(r.randrange(1, 4))).encode()
         k = r.choice(['vset', 'vvals', 'vload', 'vsize'])
         if k == 'vset':
             return mk('vset', r.choice([0, 1, 3]), name)
